@@ -18,6 +18,8 @@ ROOT = vrun.ROOT
 def run_step(step, pid, tier, seed):
     if step.get("kind") == "kani":
         return _kani(step, pid, tier)
+    if step.get("kind") == "frame-strict":
+        return _frame_strict(step)
     return {"undecided": ["unknown step kind %r" % step.get("kind")]}
 
 
@@ -58,4 +60,59 @@ def _kani(step, pid, tier):
                 res["obligations"] += 1
         else:
             res["undecided"].append("kani harness %s: %s" % (name, h.get("status")))
+    return res
+
+
+def _frame_strict(step):
+    """C06 frame obligation (mechanical, DESIGN.md §4 C06 item 3): the parser consults `strict` at exactly one decision point.
+    Scan of /repo/a2lfile/src: the field `strict` of ParserState is private, and the only expression that mentions `.strict`
+    lies inside `fn error_or_log`. If that no longer holds the meta-argument A-C06 (strict and non-strict runs take the same path
+    until the first error_or_log) does not apply any more: the step reports UNDECIDED ("frame lost"), never a violation."""
+    import re
+    from . import extract, rustlex
+    res = {"failures": [], "undecided": [], "bounded": [], "obligations": 0, "discharged": 0, "samples": [],
+           "cmd": "vf.steps frame-strict (token scan of a2lfile/src)", "trusted": ["vf/steps.py frame scan (rustlex tokens)"], "assumptions": []}
+    src_dir = os.path.join(vrun.REPO, "a2lfile", "src")
+    reads = []
+    decl_private = None
+    for root, _dirs, files in os.walk(src_dir):
+        for fn in sorted(files):
+            if not fn.endswith(".rs"):
+                continue
+            pth = os.path.join(root, fn)
+            rel = os.path.relpath(pth, vrun.REPO)
+            try:
+                text = open(pth, encoding="utf-8").read()
+            except Exception:
+                continue
+            if ".strict" not in text and "strict:" not in text:
+                continue
+            sf = rustlex.SourceFile(rel, text)
+            ct = rustlex.code_tokens(rustlex.lex(text))
+            for i, t in enumerate(ct):
+                if t.kind == "ident" and t.text == "strict" and i > 0 and ct[i - 1].text == "." and not (i + 1 < len(ct) and ct[i + 1].text == "("):
+                    # enclosing fn: nearest preceding `fn name` at lower offset (good enough for rustfmt-formatted sources)
+                    encl = "?"
+                    for j in range(i, 0, -1):
+                        if ct[j].kind == "ident" and ct[j].text == "fn" and j + 1 < len(ct):
+                            encl = ct[j + 1].text
+                            break
+                    reads.append((rel, sf.line_of(t.start), encl))
+            if rel.endswith("parser.rs"):
+                m = re.search(r"struct ParserState<'a> \{(.*?)\n\}", text, re.S)
+                if m:
+                    fm = re.search(r"^\s*((?:pub(?:\([a-z]+\))?\s+)?)strict\s*:\s*bool", m.group(1), re.M)
+                    if fm is not None:
+                        decl_private = fm.group(1).strip() == ""
+    outside = [r for r in reads if r[2] != "error_or_log"]
+    res["samples"].append("frame-strict: %d access(es) to `.strict`: %s; field private: %s" % (len(reads), reads[:6], decl_private))
+    if decl_private is None:
+        res["undecided"].append("frame-strict: declaration of ParserState.strict not found (frame of A-C06 lost)")
+    elif not decl_private or outside or not reads:
+        res["undecided"].append("frame lost: `strict` is no longer consulted at exactly one decision point (private: %s, accesses outside error_or_log: %s): "
+                                "the meta-argument A-C06 does not apply to this tree" % (decl_private, outside[:4]))
+    else:
+        res["obligations"] = 1
+        res["discharged"] = 1
+        res["samples"].append("C06-frame::strict-single-decision-point (mechanical scan: private field, read only in error_or_log @ %s:%d)" % (reads[0][0], reads[0][1]))
     return res
